@@ -6290,7 +6290,13 @@ impl Machine {
         let value = self.deref_register(2);
 
         debug_assert_eq!(HeapCellValueTag::AttrVar, var.get_tag());
-        self.machine_st.heap[var.get_value() as usize] = value;
+
+        let h = var.get_value() as usize;
+
+        self.machine_st.heap[h] = value;
+        // the hooks that ran since the first binding may have left choice
+        // points: backtracking into them must find the variable unbound again.
+        self.machine_st.trail(TrailRef::Ref(Ref::attr_var(h)));
     }
 
     /*
